@@ -39,26 +39,18 @@ func (e *Enc) get(st *State, key, sortOfKey string) T {
 	if t, ok := st.m[key]; ok {
 		return t
 	}
-	// first sight of this key
-	ent := e.entryKey(key, sortOfKey)
-	if e.pass == 2 && !e.universe[key] {
-		// discovered late: restart needed
-		e.universeGrew = true
-	}
-	e.universe[key] = true
 	e.keySorts[key] = sortOfKey
-	if e.pass == 1 || !e.everHavocked(key) {
-		st.m[key] = ent
-		return ent
+	if !e.universe[key] {
+		e.universe[key] = true
+		if e.pass == 2 && !strings.HasPrefix(key, "c:") {
+			// discovered late: the pass must be repeated with the enlarged universe
+			e.universeGrew = true
+		}
 	}
-	// In pass 2 all universe keys are pre-populated at entry, so this is only reached for keys
-	// discovered late; be conservative.
-	c := e.s.Const("late:"+key, sortOfKey)
-	st.m[key] = c
-	return c
+	ent := e.entryKey(key, sortOfKey)
+	st.m[key] = ent
+	return ent
 }
-
-func (e *Enc) everHavocked(key string) bool { return true }
 
 func (e *Enc) entryKey(key, sortOfKey string) T {
 	if t, ok := e.entry.m[key]; ok {
